@@ -22,13 +22,26 @@ func newWrappedNode(substrate ipld.Node) (LargeBytesNode, error) {
 	}
 
 	if ufd.Data.Exists() {
-		return &singleNodeFile{
-			Node: ufd.Data.Must(),
+		return &wrappedNodeFile{
+			singleNodeFile: singleNodeFile{Node: ufd.Data.Must()},
+			substrate:      substrate,
 		}, nil
 	}
 
 	// an empty degenerate one.
-	return &singleNodeFile{
-		Node: basicnode.NewBytes(nil),
+	return &wrappedNodeFile{
+		singleNodeFile: singleNodeFile{Node: basicnode.NewBytes(nil)},
+		substrate:      substrate,
 	}, nil
+}
+
+// wrappedNodeFile is a single-block file whose bytes are the Data field of the
+// UnixFS message inside a dag-pb node; the substrate is that dag-pb node.
+type wrappedNodeFile struct {
+	singleNodeFile
+	substrate ipld.Node
+}
+
+func (f *wrappedNodeFile) Substrate() ipld.Node {
+	return f.substrate
 }
